@@ -367,6 +367,43 @@ def gen_lines(rng, L, be, n_cheap, n_exp, hist, ophist, for_c06=False):
     return out
 
 
+FIAT_TO_FP = {"fiat_mul": "fp_mul", "fiat_square": "fp_sqr", "fiat_add": "fp_add", "fiat_sub": "fp_sub", "fiat_opp": "fp_neg",
+              "fiat_to_montgomery": "fp_tomont", "fiat_from_montgomery": "fp_frommont", "fiat_set_one": "fp_set_one"}
+
+
+def fiat_lines(rng, L, count, hist, ophist):
+    """calls of the fiat-crypto functions themselves (ref build): executed by the real code, by the interpreter on the
+    programs re-extracted from the C text (tie T), and — through FIAT_TO_FP — by the generic Montgomery model"""
+    E = lambda: gen_elem(rng, L, "ref", hist)
+    out = []
+
+    def add(op, al, *args):
+        ophist[op] = ophist.get(op, 0) + 1
+        out.append("%s %d %s" % (op, al, " ".join("%x" % a for a in args)))
+    for _ in range(count):
+        k = rng.below(12)
+        if k < 4:
+            al = rng.below(5)
+            a = E()
+            b = a if al >= 3 else E()
+            add(rng.choice(["fiat_mul", "fiat_mul", "fiat_add", "fiat_sub"]), al, a, b)
+        elif k < 6:
+            add(rng.choice(["fiat_square", "fiat_opp", "fiat_from_montgomery"]), rng.below(2), E())
+        elif k == 6:
+            add("fiat_to_montgomery", rng.below(2), rng.choice([E(), rng.below(L.R), L.R - 1, L.p, L.p + 1]))
+        elif k == 7:
+            add("fiat_nonzero", 0, rng.choice([0, E(), 1 << (64 * rng.below(L.n)), 1 << rng.below(64 * L.n)]))
+        elif k == 8:
+            add("fiat_selectznz", 0, rng.choice([0, 1, 1, 0xff]), E(), E())
+        elif k == 9:
+            add("fiat_to_bytes", 0, E())
+        elif k == 10:
+            add("fiat_from_bytes", 0, rng.choice([rng.below(L.p), L.p - 1, 0, 1 << rng.below(8 * L.nbytes - 8)]))
+        else:
+            add("fiat_set_one", 0)
+    return out
+
+
 def corpus_lines(prop, L, be=None):
     """minimised past failures from corpus/<prop>/*.txt (run first on every check)"""
     d = os.path.join(vlib.ROOT, "corpus", prop)
@@ -423,6 +460,8 @@ def oracle(L, be, line, res):
     op, a = t[0], [int(x, 16) for x in t[2:]]
     p, D = L.p, L.dom(be)
     V = L.val
+    if op in FIAT_TO_FP:
+        return oracle(L, be, " ".join([FIAT_TO_FP[op]] + t[1:]), res)
     if "bad-op" in res or any(x.startswith("<") for x in res):
         return ("%s:lvl%d:%s:no-result" % (be, L.lvl, op), "no result from the real code (crash / rejected call)")
     try:
@@ -497,6 +536,14 @@ def oracle(L, be, line, res):
         if len(r) != 2 or not rng_ok(r[0]) or V(r[0]) != a[0] or r[1] != T32:
             return bad("decode of a canonical string is not the encoded value")
         return None
+    if op == "fiat_nonzero":
+        return None if (len(r) == 1 and (r[0] == 0) == (a[0] == 0)) else bad("nonzero test wrong")
+    if op == "fiat_selectznz":
+        return None if r == [a[2] if a[0] else a[1]] else bad("wrong operand selected")
+    if op == "fiat_to_bytes":
+        return None if r == [a[0]] else bad("byte serialisation is not the little-endian integer")
+    if op == "fiat_from_bytes":
+        return None if r == [a[0]] else bad("byte deserialisation is not the little-endian integer")
     # ---- GF(p^2)
     X = lambda i: (V(a[i]), V(a[i + 1]))
     if op == "fp2_add": return fp2res((X(0)[0] + X(2)[0], X(0)[1] + X(2)[1]))
